@@ -150,6 +150,7 @@ qb_log_thread_start(void)
 	}
 
 	wthread_active = QB_TRUE;
+	wthread_should_exit = QB_FALSE;
 	sem_init(&logt_thread_start, 0, 0);
 	sem_init(&logt_print_finished, 0, 0);
 	errno = 0;
@@ -302,7 +303,10 @@ qb_log_thread_stop(void)
 		sem_post(&logt_print_finished);
 		pthread_join(logt_thread_id, NULL);
 	}
+	/* allow a later qb_log_thread_start() to start a thread again */
+	wthread_active = QB_FALSE;
 	(void)qb_thread_lock_destroy(logt_wthread_lock);
+	logt_wthread_lock = NULL;
 	sem_destroy(&logt_print_finished);
 	sem_destroy(&logt_thread_start);
 }
